@@ -5,4 +5,8 @@ let table : (string * (BinNums.coq_N list -> BinNums.coq_N list)) list = [
   ("framing", FramingCorr.check_framing);
   ("framing_mon", FramingCorr.mon_framing);
   ("conn", ConnCorr.check_conn);
+  ("conn_proj", Proj.check_conn_proj);
+  ("mon_c19", MonGate.mon_c19);
+  ("mon_c11", MonGate.mon_c11);
+  ("mon_c17", MonGate.mon_c17);
 ]
